@@ -78,4 +78,15 @@ RRejectsDamagedFirst == (st \in {"done", "error"}) => (st = "error" <=> FirstDam
 \* as coded only the first member is inflated: the single-member restriction of R is what M meets
 RAcceptsFirstMember == st = "done" => produced = members[1].cin * members[1].ratio
 Terminates == <>(st \in {"done", "error"})
+
+\* ---- reading the decompressed copy back (DecompressedFile::read, FilePresentedBlockwise::read_block)
+\* A read of len units at pos returns what is there, shortened at the end of the data; a block (BlockUnits units) is
+\* readable only when it comes back whole.  OsFile::read on the uncompressed file follows the same rule, which is what
+\* makes compression transparent for an image whose length is not a whole number of sectors.
+BlockUnits == 2
+MReadLen(size, pos, len) == IF pos >= size THEN 0 ELSE IF size - pos < len THEN size - pos ELSE len
+MBlockReadable(size, lba) == MReadLen(size, lba * BlockUnits, BlockUnits) = BlockUnits
+RBlockReadable(size, lba) == (lba + 1) * BlockUnits <= size
+RReadBack == st = "done" => \A lba \in 0..(produced \div BlockUnits + 1) :
+                 MBlockReadable(produced, lba) = RBlockReadable(members[1].cin * members[1].ratio, lba)
 =============================================================================
